@@ -18,6 +18,10 @@ RULE = ("(a) end to end through impl.assemble: every branch mnemonic (stub signa
         "whole 64 KiB space incl. wrap-around through 0o177777/0, beyond 16 bits and negative, link addresses 0 .. 0o177770, target "
         "written as number, symbol (defined before/after), label, label+-k, .+-k, local label; the effective address computed by the "
         "Spec from the emitted displacement at its actual location must be the target mod 2^16; "
+        "(b') file layouts: the same branch / sob / relative / relative-deferred operands placed in the main file, in a second linked file, in a file "
+        "pulled in by .include at a non-zero offset, and in an include repeated by .repeat (every copy judged at its own address), with and "
+        "without an explicit .link, the target being an absolute number, a label or constant exported by the including / first file "
+        "(before+k, after-k, tgt ==) or .+-k; same oracle (effective address decoded by the Spec = address named in the source); "
         "(c) the stubs' inner functions driven directly through the real Instruction objects: OffsetOperandStub.fn of every branch "
         "mnemonic and sob over a window of targets around rel (quick +-600, thorough +-70000), ImmediateOperandStub.fn over +-600, the "
         "relative-mode lambdas over seeded (target, rel) pairs; compared with Model.Insns.enc_offset / enc_imm / enc_rel and with the Spec. "
@@ -52,10 +56,11 @@ def branch_mnemonics(intro):
 
 
 class BrCase:
-    __slots__ = ("m", "reg", "t", "addr", "src", "off", "total", "spelling", "d", "res")
+    __slots__ = ("m", "reg", "t", "addr", "src", "off", "total", "spelling", "d", "res", "files", "fs", "lax")
 
     def describe(self):
-        return {"files": [["t.mac", self.src]], "mnemonic": self.m, "reg": self.reg, "target": self.t, "address": self.addr,
+        return {"files": [list(f) for f in (getattr(self, "files", None) or [("t.mac", self.src)])], "fs": getattr(self, "fs", None),
+                "lax": getattr(self, "lax", False), "total": self.total, "mnemonic": self.m, "reg": self.reg, "target": self.t, "address": self.addr,
                 "distance": self.d, "spelling": self.spelling, "word_offset": self.off,
                 "impl": {k: self.res.get(k) for k in ("outcome", "base", "code", "crash")},
                 "errors": [x[1] for x in self.res.get("diags", []) if x[0] != "warning"]}
@@ -65,7 +70,8 @@ class BrCase:
         if r["outcome"] == "ok":
             b = bytes.fromhex(r["code"])
             # padding must be zeros and the image exactly as long as announced
-            if len(b) != self.total or any(b[:self.off]) or any(b[self.off + 2:]):
+            # (lax: other copies of the instruction stand next to it, only the length is checked)
+            if len(b) != self.total or (not getattr(self, "lax", False) and (any(b[:self.off]) or any(b[self.off + 2:]))):
                 return "ObsCrash"
             return "ObsOk [%d]" % (b[self.off] | (b[self.off + 1] << 8))
         return "ObsFail" if r["outcome"] == "failed" else "ObsCrash"
@@ -236,10 +242,11 @@ def branch_cases(brs, sobs, rng, tier):
 
 # ------------------------------------------------------------------------------------------------
 class RelCase:
-    __slots__ = ("m", "ops", "addr", "i", "src", "nwords", "total", "res", "key")
+    __slots__ = ("m", "ops", "addr", "i", "src", "nwords", "total", "res", "key", "files", "fs", "off", "lax")
 
     def describe(self):
-        return {"files": [["t.mac", self.src]], "mnemonic": self.m, "operands": [IC.coq_operand(o) for o in self.ops], "address": self.addr,
+        return {"files": [list(f) for f in (getattr(self, "files", None) or [("t.mac", self.src)])], "fs": getattr(self, "fs", None),
+                "lax": getattr(self, "lax", False), "total": self.total, "word_offset": getattr(self, "off", 0), "mnemonic": self.m, "operands": [IC.coq_operand(o) for o in self.ops], "address": self.addr,
                 "position": self.i, "nwords": self.nwords, "impl": {k: self.res.get(k) for k in ("outcome", "base", "code", "crash")},
                 "errors": [x[1] for x in self.res.get("diags", []) if x[0] != "warning"]}
 
@@ -248,9 +255,11 @@ class RelCase:
         if r["outcome"] == "ok":
             b = bytes.fromhex(r["code"])
             # the image must be exactly the instruction followed by zero padding up to the label
-            if len(b) != self.total or any(b[2 * self.nwords:]):
+            off = getattr(self, "off", 0)
+            rest = b[:off] + b[off + 2 * self.nwords:]
+            if len(b) != self.total or (not getattr(self, "lax", False) and any(rest)):
                 return "ObsCrash"
-            b = b[:2 * self.nwords]
+            b = b[off:off + 2 * self.nwords]
             return "ObsOk " + C.zlist([b[j] | (b[j + 1] << 8) for j in range(0, len(b), 2)])
         return "ObsFail" if r["outcome"] == "failed" else "ObsCrash"
 
@@ -398,6 +407,155 @@ def make_relative(m, shape, addr, t, deferred, sp, rng):
     return c
 
 
+
+# ------------------------------------------------------------------------------------------------
+# file layouts: the same operands inside a second linked file, inside an included file at a non-zero offset,
+# inside an include repeated by .repeat; with and without an explicit .link (base unknown until the end);
+# targets that are NOT expressed relative to the file that holds the instruction: absolute numbers, labels and
+# constants exported by the including / first file.  Oracle unchanged: the property itself.
+LAYOUTS = ["include", "include", "include-repeat", "second-file", "main"]
+LAYOUT_SPELL = ["abs", "abs-dec", "before+k", "after-k", "const", "dot"]
+
+
+def spell_target(T, sp, base, after_addr, dot_addr):
+    """text of the address T; returns (text, extra main-file definitions) or None"""
+    if sp == "abs":
+        return (IC.octnum(T), []) if T >= 0 else None
+    if sp == "abs-dec":
+        return (IC.num(T), []) if T >= 0 else None
+    if sp == "before+k":
+        k = T - base
+        return ("before" + ("" if k == 0 else ("+" + IC.num(k) if k > 0 else "-" + IC.num(-k))), [])
+    if sp == "after-k":
+        k = after_addr - T
+        return ("after" + ("" if k == 0 else ("-" + IC.octnum(k) if k > 0 else "+" + IC.octnum(-k))), [])
+    if sp == "const":
+        return ("tgt", ["tgt == " + IC.num(T)])
+    if sp == "dot":
+        k = T - dot_addr
+        return ("." if k == 0 else (".+" + IC.num(k) if k > 0 else ".-" + IC.num(-k)), [])
+    raise RuntimeError(sp)
+
+
+def build_layout(layout, link, k1, part_line, ilen, main_defs, rng):
+    """returns (files, fs, [image offsets of the copies], total image length)"""
+    head = ([".link " + IC.octnum(link)] if link is not None else []) + main_defs
+    tail_len = 4
+    if layout == "main":
+        files = [("main.mac", "\n".join(head + ["before:: .blkb " + IC.num(k1), part_line, "after:: .blkb 4"]) + "\n")]
+        return files, None, [k1], k1 + ilen + tail_len
+    if layout == "second-file":
+        files = [("a.mac", "\n".join(head + ["before:: .blkb " + IC.num(k1)]) + "\n"),
+                 ("b.mac", part_line + "\nafter:: .blkb 4\n")]
+        return files, None, [k1], k1 + ilen + tail_len
+    if layout == "include":
+        files = [("main.mac", "\n".join(head + ["before:: .blkb " + IC.num(k1), '.include "part.mac"', "after:: .blkb 4"]) + "\n")]
+        return files, {"part.mac": part_line + "\n"}, [k1], k1 + ilen + tail_len
+    if layout == "include-repeat":
+        n = 2
+        files = [("main.mac", "\n".join(head + ["before:: .blkb " + IC.num(k1), '.repeat %d { .include "part.mac" }' % n, "after:: .blkb 4"]) + "\n")]
+        return files, {"part.mac": part_line + "\n"}, [k1 + j * ilen for j in range(n)], k1 + n * ilen + tail_len
+    raise RuntimeError(layout)
+
+
+def layout_cases(intro, brs, sobs, rng, tier):
+    by = {n: st for n, _p, st in intro}
+    cases = []
+    per = 3 if tier == "quick" else 16
+
+    def geometry():
+        layout = rng.choice(LAYOUTS)
+        link = rng.choice([None, None, 0o2000, 0o400, 0o100000])
+        base = 0o1000 if link is None else link
+        k1 = rng.choice([2, 4, 6, 10, 64, 200])
+        return layout, link, base, k1
+
+    # branches and sob
+    for m in brs + sobs:
+        sob = m in sobs
+        for _ in range(per):
+            layout, link, base, k1 = geometry()
+            ncopies = 2 if layout == "include-repeat" else 1
+            addr0 = base + k1
+            after = addr0 + 2 * ncopies
+            d = rng.choice([-126, -20, -4, -2, 0, 2, -128, 4] if sob else [-256, -254, -100, -20, -2, 0, 2, 40, 254, 256, -258, k1, -k1 - 2])
+            if ncopies > 1:      # every copy must be on the same side of the reach limits, or the whole program is refused
+                d = rng.choice([-100, -20, -4, -2] if sob else [-100, -20, -2, 0, 2, 40, 200])
+            T = addr0 + 2 + d
+            # a bare octal number is a local label for a branch, so absolute branch targets are written in decimal
+            sp = rng.choice([x for x in LAYOUT_SPELL if x != "abs"])
+            if ncopies > 1 and sp == "dot":
+                sp = "const"
+            st = spell_target(T, sp, base, after, addr0) or spell_target(T, "const", base, after, addr0)
+            text, defs = st
+            reg = rng.randrange(8) if sob else None
+            line = m + " " + (("r%d, " % reg) if sob else "") + text
+            files, fs, offs, total = build_layout(layout, link, k1, line, 2, defs, rng)
+            for j, off in enumerate(offs):
+                c = BrCase()
+                c.m, c.reg, c.t, c.addr, c.d = m, reg, T, base + off, T - (base + off + 2)
+                c.off, c.total, c.lax = off, total, ncopies > 1
+                c.spelling = "layout:%s:%s:%s:copy%d" % (layout, sp, "nolink" if link is None else "link", j)
+                c.files, c.fs, c.src = files, fs, files[0][1]
+                cases.append(c)
+    # relative / relative-deferred operands
+    shapes = [("clr", "R"), ("tst", "R"), ("jmp", "R"), ("mov", "R,r"), ("mov", "#,R"), ("mov", "r,R"), ("cmp", "R,R"), ("add", "X,R"),
+              ("jsr", "reg,R"), ("mul", "R,reg"), ("ldf", "R,ac"), ("stf", "ac,R"), ("tstf", "R"), ("push", "R"), ("call", "R")]
+    for m, shape in shapes:
+        if m not in by:
+            continue
+        for _ in range(per + 1):
+            layout, link, base, k1 = geometry()
+            ncopies = 2 if layout == "include-repeat" else 1
+            parts = shape.split(",")
+            nwords = 1 + sum(1 for p in parts if p in ("R", "#", "X"))
+            addr0 = base + k1
+            after = addr0 + 2 * nwords * ncopies
+            ops, texts, defs, tested = [], [], [], None
+            deferred = rng.random() < 0.35
+            for pi, p in enumerate(parts):
+                if p == "R":
+                    T = rng.choice([0o100, 0o60, 0o177716, 0, base, base + 2, addr0, after, after + 2, 0o1000, 0o2002, addr0 + 0o100000])
+                    sp = rng.choice(LAYOUT_SPELL[:5])
+                    if sp == "const" and any(x.startswith("tgt") for x in defs):
+                        sp = "before+k"
+                    text, d2 = spell_target(T, sp, base, after, addr0) or spell_target(T, "before+k", base, after, addr0)
+                    defs += d2
+                    if tested is None:
+                        tested = pi
+                        ops.append(("ORelDef" if deferred else "ORel", T))
+                        texts.append(("@" if deferred else "") + text)
+                        tsp = sp
+                    else:
+                        ops.append(("ORel", T))
+                        texts.append(text)
+                elif p == "r":
+                    r = rng.randrange(6)
+                    ops.append(("ORegDef", r)); texts.append("(%s)" % IC.REGNAMES[r])
+                elif p == "#":
+                    v = rng.choice(IC.VAL16[:8])
+                    ops.append(("OImm", v)); texts.append("#" + IC.num(v))
+                elif p == "X":
+                    v, r = rng.choice(IC.VAL16[:8]), rng.randrange(7)
+                    ops.append(("OIndex", v, r)); texts.append("%s(%s)" % (IC.num(v), IC.REGNAMES[r]))
+                elif p == "reg":
+                    r = rng.randrange(8)
+                    ops.append(("OReg", r)); texts.append(IC.REGNAMES[r])
+                elif p == "ac":
+                    n = rng.randrange(4)
+                    ops.append(("OAcc", n)); texts.append("ac%d" % n)
+            line = m + " " + ", ".join(texts)
+            files, fs, offs, total = build_layout(layout, link, k1, line, 2 * nwords, defs, rng)
+            for j, off in enumerate(offs):
+                c = RelCase()
+                c.m, c.ops, c.addr, c.i = m, ops, base + off, tested
+                c.nwords, c.total, c.off, c.lax = nwords, total, off, ncopies > 1
+                c.files, c.fs, c.src = files, fs, files[0][1]
+                c.key = (m, "layout:%s:%s:%s:copy%d" % (layout, shape, tsp, j), c.addr, ops[tested][1], deferred, "nolink" if link is None else "link")
+                cases.append(c)
+    return cases
+
+
 # ------------------------------------------------------------------------------------------------
 def explore(rep, br, tier, seed):
     rng = random.Random(seed)
@@ -408,7 +566,8 @@ def explore(rep, br, tier, seed):
     if len(brs) < 15 or not sobs:
         rep.disagree("branch mnemonics found by introspection", {"branches": brs, "sob": sobs})
     # (a) end-to-end branches
-    bc = branch_cases(brs, sobs, rng, tier)
+    lay = layout_cases(intro, brs, sobs, rng, tier)
+    bc = branch_cases(brs, sobs, rng, tier) + [c for c in lay if isinstance(c, BrCase)]
     IC.run_cases(bc)
     for c in bc:
         rep.add_eval()
@@ -429,7 +588,8 @@ def explore(rep, br, tier, seed):
             rep.violate(f"branch:{c.m}:{c.d}:{c.spelling}:{o}", msg + " (judged in Coq: Run.C04Run.prop_branch)", c.describe())
     rep.exhaustive_parts.append(f"every branch mnemonic ({len(brs)}) x every distance -300..+300; sob x -140..+6")
     # (b) relative operands
-    rc = relative_cases(intro, rng, tier)
+    rc = relative_cases(intro, rng, tier) + [c for c in lay if isinstance(c, RelCase)]
+    rep.count("layout-cases", len(lay))
     IC.run_cases(rc)
     for c in rc:
         rep.add_eval()
@@ -562,14 +722,15 @@ def search(rep, br, tier, seed):
 
 
 def explore_with(rep, rng, intro, brs, sobs):
-    bc = branch_cases(brs, sobs, rng, "thorough")
+    lay = layout_cases(intro, brs, sobs, rng, "thorough")
+    bc = branch_cases(brs, sobs, rng, "thorough") + [c for c in lay if isinstance(c, BrCase)]
     IC.run_cases(bc)
     codes = C.run_case_files(ID, REQ, PRE, C.shard([c.term() for c in bc], 500), judge_expr="map judge_branch cases")
     for c, code in zip(bc, [x for sh in codes for x in sh]):
         rep.add_eval()
         if code & 2:
             rep.violate(f"branch:{c.m}:{c.d}:{c.spelling}:{c.res['outcome']}", "branch accept/reject or target contradicts the Spec (Run.C04Run.prop_branch)", c.describe())
-    rc = relative_cases(intro, rng, "thorough")
+    rc = relative_cases(intro, rng, "thorough") + [c for c in lay if isinstance(c, RelCase)]
     IC.run_cases(rc)
     codes = C.run_case_files(ID, REQ, PRE, C.shard([c.term() for c in rc], 500), judge_expr="map judge_relative cases")
     for c, code in zip(rc, [x for sh in codes for x in sh]):
@@ -583,18 +744,23 @@ def replay(data):
     if "files" not in inp:
         print("direct stub case:", inp)
         return False
-    r = impl.assemble([tuple(x) for x in inp["files"]])
-    print("source:", inp["files"][0][1].strip().replace("\n", " / "))
+    r = impl.assemble([tuple(x) for x in inp["files"]], fs=inp.get("fs"))
+    for fn, text in inp["files"]:
+        print("source %s:" % fn, text.strip().replace("\n", " / "))
+    for fn, text in (inp.get("fs") or {}).items():
+        print("include %s:" % fn, text.strip().replace("\n", " / "))
     print("now:", {k: r.get(k) for k in ("outcome", "base", "code", "crash")})
     if "distance" in inp:
         c = BrCase()
         c.m, c.reg, c.t, c.addr, c.off, c.res = inp["mnemonic"], inp["reg"], inp["target"], inp["address"], inp["word_offset"], r
-        c.total = len(bytes.fromhex(r["code"])) if r["outcome"] == "ok" else 0
+        c.lax = inp.get("lax", False)
+        c.total = inp.get("total") or (len(bytes.fromhex(r["code"])) if r["outcome"] == "ok" else 0)
         code = C.run_case_files(ID, REQ, PRE, [[c.term()]], judge_expr="map judge_branch cases")[0][0]
     else:
         c = RelCase()
         c.m, c.addr, c.i, c.res, c.nwords = inp["mnemonic"], inp["address"], inp["position"], r, inp["nwords"]
-        c.total = len(bytes.fromhex(r["code"])) if r["outcome"] == "ok" else 0
+        c.off, c.lax = inp.get("word_offset", 0), inp.get("lax", False)
+        c.total = inp.get("total") or (len(bytes.fromhex(r["code"])) if r["outcome"] == "ok" else 0)
         ops = "[" + "; ".join(inp["operands"]) + "]"
         term = "(%s, %s, %s, %d%%nat, %s)" % (C.coq_str(c.m), ops, C.zlit(c.addr), c.i, c.obs())
         code = C.run_case_files(ID, REQ, PRE, [[term]], judge_expr="map judge_relative cases")[0][0]
